@@ -35,7 +35,7 @@ def main(tier):
             'component_ref carriers are components with a parent component or with children; the encapsulation carrier exists when some component has children (an id given to others is not judged)',
             'lookups are judged after assign* calls (the statement); after other operations disagreements are counted only (outcome lookups:observed-only:*)',
             'lookups with no model / an expired model are outside the statement and skipped (Annotator::ids() on an expired model is C09\'s crash)',
-            'item(id, 1) for an id listed once is probed only in family lookupindex: it reads out of bounds and would abort every state with a unique id',
+            'clearAllIds(null model): whether the annotator forgets or keeps its model is not part of the statement; the reference follows the implementation',
             'ids given to objects outside the annotator\'s model by a failing assignId are counted, not judged; changing an EXISTING id of such an object is judged',
             'the annotator\'s private state (AnnotatorImpl is defined in annotator.cpp) is read through a mirrored struct verified by a start-up probe; it feeds only the de-duplication key and the adversarial "next automatic id" menu entry',
             'the universe is built through the API (no modelgen exists): 3 components (one encapsulated child, one imported), 2 variables with one equivalence, local + imported units, 1 unit child, 1 reset, 1 shared import source; second model for foreign items',
